@@ -33,7 +33,7 @@ type expr struct {
 func (e *expr) String() string { return e.key }
 
 func mkConst(k int64) *expr { return &expr{op: "const", k: k, key: fmt.Sprintf("%d", k)} }
-func mkSym(n string) *expr   { return &expr{op: "sym", name: n, key: n} }
+func mkSym(n string) *expr  { return &expr{op: "sym", name: n, key: n} }
 
 func mkRaw(op string, k int64, name string, args ...*expr) *expr {
 	var sb strings.Builder
@@ -243,8 +243,8 @@ func mkConv(width int64, x *expr) *expr {
 type ievent struct {
 	Kind string // append, spread, store, call, defer
 	Ins  ssa.Instruction
-	Name string  // callee / field key
-	Args []*expr // append: target, elems…; store: value; call: arguments
+	Name string           // callee / field key
+	Args []*expr          // append: target, elems…; store: value; call: arguments
 	Heap map[string]*expr // dynamic calls: the fields as they are when the callback runs
 }
 
